@@ -208,6 +208,14 @@ func c17Pair(c *rt.Ctx, fsType string, h int) {
 	n := c.Pick(60, 120)
 	for i := 0; i < n; i++ {
 		fsx.BeginCall()
+		if _, le := lv.Lstat("/w"); le != nil {
+			if _, we := wv.Lstat(wroot); we != nil {
+				// a RemoveAll of /w or of the root took the compared subtree away on both sides: it is created again
+				_ = lv.MkdirAll("/w", 0o755)
+				_ = wv.MkdirAll(wroot, 0o755)
+				c.Rep.Count("subtree_recreated_after_removeall", 1)
+			}
+		}
 		ls := fsx.Snap(lv, "/w", fsx.SnapOpts{})
 		ws := fsx.Snap(wv, wroot, fsx.SnapOpts{})
 		ll, wl := c17Lines(lv, ls), c17Lines(wv, ws)
@@ -238,11 +246,14 @@ func c17Pair(c *rt.Ctx, fsType string, h int) {
 		}
 		g.Observe(ls.Recs, lcwd)
 		o := g.Next()
+		if o.K == "RemoveAll" && r.IntN(6) == 0 {
+			o.P = []string{"/", "/w", "/w/.."}[r.IntN(3)] // the whole volume / the whole compared subtree
+		}
 		if o.K == "F.Chdir" || o.K == "Chown" || o.K == "Lchown" || o.K == "F.Chown" {
 			continue
 		}
-		if ap, err := lv.Abs(o.P); (o.K == "Remove" || o.K == "RemoveAll" || o.K == "Rename") && (err != nil || ap == "/w" || ap == "/") {
-			continue // the compared subtree itself stays
+		if ap, err := lv.Abs(o.P); (o.K == "Remove" || o.K == "Rename") && (err != nil || ap == "/w" || ap == "/") {
+			continue // the compared subtree itself stays (RemoveAll of it, or of the root, is allowed: see below)
 		}
 		if o.K == "Rename" && lv.Clean(o.P) == lv.Clean(o.Q) {
 			// os.Rename of a directory onto its own spelling fails on Unix (Go's own pre-check) and succeeds on Windows:
